@@ -74,21 +74,32 @@ def localStep (t : Conc.Task) (cur : List Id) : Conc.Task × List Id :=
   | .idle, [] => (t, cur)
   | .idle, c :: _ =>
     if cur.contains c.f then ({ t with pc := .inBody c.bodyYields false cur }, cur)
-    else ({ t with pc := .inCond c.condYields cur }, addId cur c.f)
+    else
+      match c.kind with
+      | .ctor => ({ t with pc := .inBody c.bodyYields true cur }, addId cur c.f)
+      | _ => ({ t with pc := .inCond c.condYields cur }, addId cur c.f)
   | .inCond (n + 1) e, _ => ({ t with pc := .inCond n e }, cur)
   | .inCond 0 e, c :: rest =>
-    if c.preTruthy then ({ t with pc := .inBody c.bodyYields true e }, e)
+    if c.preTruthy then
+      ({ t with pc := .inBody c.bodyYields true e }, match c.kind with | .function => e | _ => cur)
     else ({ t with pc := .idle, calls := rest, verdicts := t.verdicts ++ [.violation] }, e)
   | .inCond 0 _, [] => (t, cur)
   | .inBody (n + 1) ck e, _ => ({ t with pc := .inBody n ck e }, cur)
-  | .inBody 0 ck e, _ :: rest =>
-    ({ t with pc := .idle, calls := rest, verdicts := t.verdicts ++ [.returned] }, if ck then e else cur)
+  | .inBody 0 ck e, c :: rest =>
+    if ck then
+      ({ t with pc := .inPost c.postYields e }, match c.kind with | .function => addId e c.f | _ => cur)
+    else ({ t with pc := .idle, calls := rest, verdicts := t.verdicts ++ [.returned] }, cur)
   | .inBody 0 _ _, [] => (t, cur)
+  | .inPost (n + 1) e, _ => ({ t with pc := .inPost n e }, cur)
+  | .inPost 0 e, c :: rest =>
+    ({ t with pc := .idle, calls := rest,
+              verdicts := t.verdicts ++ [if c.postTruthy then .returned else .postViolation] }, e)
+  | .inPost 0 _, [] => (t, cur)
 
 theorem microStep_eq_localStep {w : World} {i : Nat} {t : Conc.Task} (h : w.tasks[i]? = some t) :
     microStep .perContext w i =
       putTask (putSet w t.ctx (localStep t (getSet w t.ctx)).2) i (localStep t (getSet w t.ctx)).1 := by
-  obtain ⟨ctx, calls, pc, verdicts⟩ := t
+  obtain ⟨ctx, calls, pc, verdicts, program⟩ := t
   have hs := putTask_self h
   cases pc with
   | idle =>
@@ -97,7 +108,7 @@ theorem microStep_eq_localStep {w : World} {i : Nat} {t : Conc.Task} (h : w.task
     | cons c rest =>
       by_cases hc : c.f ∈ getSet w ctx
       · simp [microStep, localStep, h, putSet_getSet, hc]
-      · simp [microStep, localStep, h, hc]
+      · cases hk : c.kind <;> simp [microStep, localStep, h, hc, hk]
   | inCond n e =>
     cases n with
     | zero =>
@@ -105,8 +116,8 @@ theorem microStep_eq_localStep {w : World} {i : Nat} {t : Conc.Task} (h : w.task
       | nil => simp [microStep, localStep, h, putSet_getSet, hs]
       | cons c rest =>
         by_cases hc : c.preTruthy = true
-        · simp [microStep, localStep, h, hc]
-        · simp [microStep, localStep, h, hc]
+        · cases hk : c.kind <;> simp [microStep, localStep, h, hc, hk, restore, putSet_getSet]
+        · simp [microStep, localStep, h, hc, restore]
     | succ n => simp [microStep, localStep, h, putSet_getSet]
   | inBody n ck e =>
     cases n with
@@ -114,143 +125,228 @@ theorem microStep_eq_localStep {w : World} {i : Nat} {t : Conc.Task} (h : w.task
       cases calls with
       | nil => simp [microStep, localStep, h, putSet_getSet, hs]
       | cons c rest =>
-        cases ck <;> simp [microStep, localStep, h, putSet_getSet]
+        cases ck
+        · simp [microStep, localStep, h, putSet_getSet]
+        · cases hk : c.kind <;> simp [microStep, localStep, h, hk, mark, putSet_getSet]
     | succ n => simp [microStep, localStep, h, putSet_getSet]
-
-/-! ### the per-task invariant -/
-
-/-- what the program counter says about the value bound in the task's own context -/
-def PcOk (e0 : List Id) (calls : List CallSpec) (cur : List Id) : Pc → Prop
-  | .idle => cur = e0
-  | .inCond _ e => e = e0 ∧ ∃ c rest, calls = c :: rest ∧ cur = addId e0 c.f
-  | .inBody _ true e => e = e0 ∧ cur = e0 ∧ ∃ c rest, calls = c :: rest ∧ c.preTruthy = true
-  | .inBody _ false _ => False
-
-/-- `t` is a reachable state of the task that started as `t0` with `e0` bound in its context;
-`cur` is the value bound there now -/
-structure TInv (e0 : List Id) (t0 t : Conc.Task) (cur : List Id) : Prop where
-  ctx : t.ctx = t0.ctx
-  prog : ∃ done, t0.calls = done ++ t.calls ∧ t.verdicts = done.map CallSpec.expected
-  pc : PcOk e0 t.calls cur t.pc
+  | inPost n e =>
+    cases n with
+    | zero =>
+      cases calls with
+      | nil => simp [microStep, localStep, h, putSet_getSet, hs]
+      | cons c rest => simp [microStep, localStep, h, restore]
+    | succ n => simp [microStep, localStep, h, putSet_getSet]
 
 theorem localStep_ctx (t : Conc.Task) (cur : List Id) : (localStep t cur).1.ctx = t.ctx := by
   unfold localStep
-  split <;> (try split) <;> rfl
+  split <;> (try split) <;> (try split) <;> rfl
 
-theorem localStep_inv {e0 : List Id} {t0 t : Conc.Task} {cur : List Id}
-    (hnp : ∀ c ∈ t0.calls, e0.contains c.f = false) (h : TInv e0 t0 t cur) :
-    TInv e0 t0 (localStep t cur).1 (localStep t cur).2 := by
-  obtain ⟨hctx, ⟨done, hd, hv⟩, hpc⟩ := h
-  obtain ⟨ctx, calls, pc, verdicts⟩ := t
-  simp only at hctx hd hv hpc
+/-! ### the per-task invariant -/
+
+/-- what the program counter says about the value bound in the task's own context; `h` is the task's
+"home" value: the value bound whenever it is between two calls -/
+def PcOk (h : List Id) (calls : List CallSpec) (cur : List Id) : Pc → Prop
+  | .idle => cur = h
+  | .inCond _ e => e = h ∧ ∃ c rest, calls = c :: rest ∧ c.kind ≠ .ctor ∧ cur = addId h c.f
+  | .inBody _ true e => e = h ∧ ∃ c rest, calls = c :: rest ∧ (c.kind ≠ .ctor → c.preTruthy = true) ∧
+      cur = (if c.kind = .function then h else addId h c.f)
+  | .inBody _ false _ => False
+  | .inPost _ e => e = h ∧ ∃ c rest, calls = c :: rest ∧ (c.kind ≠ .ctor → c.preTruthy = true) ∧
+      cur = addId h c.f
+
+/-- `t` is a reachable state of a task whose home value is `h`; `cur` is the value bound in its context now -/
+structure TInv (h : List Id) (t : Conc.Task) (cur : List Id) : Prop where
+  prog : ∃ done, t.program = done ++ t.calls ∧ t.verdicts = done.map CallSpec.expected
+  home : ∀ c ∈ t.calls, h.contains c.f = false
+  pc : PcOk h t.calls cur t.pc
+
+theorem expected_violation {c : CallSpec} (hk : c.kind ≠ .ctor) (hp : c.preTruthy = false) :
+    c.expected = .violation := by
+  cases hk' : c.kind <;> simp_all [CallSpec.expected]
+
+theorem expected_post {c : CallSpec} (hp : c.kind ≠ .ctor → c.preTruthy = true) :
+    c.expected = (if c.postTruthy then .returned else .postViolation) := by
+  cases hk' : c.kind <;> simp_all [CallSpec.expected]
+
+theorem localStep_inv {h : List Id} {t : Conc.Task} {cur : List Id} (hI : TInv h t cur) :
+    TInv h (localStep t cur).1 (localStep t cur).2 := by
+  obtain ⟨⟨done, hd, hv⟩, hhome, hpc⟩ := hI
+  obtain ⟨ctx, calls, pc, verdicts, program⟩ := t
+  simp only at hd hv hpc hhome
   cases pc with
   | idle =>
     simp only [PcOk] at hpc
     subst hpc
     cases calls with
-    | nil => exact ⟨hctx, ⟨done, hd, hv⟩, by simp [localStep, PcOk]⟩
+    | nil => exact ⟨⟨done, hd, hv⟩, hhome, by simp [localStep, PcOk]⟩
     | cons c rest =>
-      have hc : c.f ∉ cur := by simpa using hnp c (by simp [hd])
-      refine ⟨by simp [localStep, hc, hctx], ⟨done, ?_, ?_⟩, ?_⟩
-      · simpa [localStep, hc] using hd
-      · simpa [localStep, hc] using hv
-      · simp [localStep, hc, PcOk]
+      have hc : c.f ∉ cur := by simpa using hhome c (by simp)
+      cases hk : c.kind with
+      | ctor =>
+        refine ⟨⟨done, ?_, ?_⟩, ?_, ?_⟩
+        · simpa [localStep, hc, hk] using hd
+        · simpa [localStep, hc, hk] using hv
+        · simpa [localStep, hc, hk] using hhome
+        · simp [localStep, hc, hk, PcOk]
+      | function =>
+        refine ⟨⟨done, ?_, ?_⟩, ?_, ?_⟩
+        · simpa [localStep, hc, hk] using hd
+        · simpa [localStep, hc, hk] using hv
+        · simpa [localStep, hc, hk] using hhome
+        · simp [localStep, hc, hk, PcOk]
+      | method =>
+        refine ⟨⟨done, ?_, ?_⟩, ?_, ?_⟩
+        · simpa [localStep, hc, hk] using hd
+        · simpa [localStep, hc, hk] using hv
+        · simpa [localStep, hc, hk] using hhome
+        · simp [localStep, hc, hk, PcOk]
   | inCond n e =>
-    obtain ⟨he, c, rest, hcalls, hcur⟩ := hpc
+    obtain ⟨he, c, rest, hcalls, hk, hcur⟩ := hpc
     subst he hcalls
     cases n with
     | succ n =>
-      exact ⟨hctx, ⟨done, hd, hv⟩, ⟨rfl, c, rest, rfl, hcur⟩⟩
+      exact ⟨⟨done, hd, hv⟩, hhome, ⟨rfl, c, rest, rfl, hk, hcur⟩⟩
     | zero =>
       by_cases hp : c.preTruthy = true
-      · refine ⟨by simp [localStep, hp, hctx], ⟨done, ?_, ?_⟩, ?_⟩
+      · refine ⟨⟨done, ?_, ?_⟩, ?_, ?_⟩
         · simpa [localStep, hp] using hd
         · simpa [localStep, hp] using hv
-        · simp [localStep, hp, PcOk]
-      · refine ⟨by simp [localStep, hp, hctx], ⟨done ++ [c], ?_, ?_⟩, ?_⟩
+        · simpa [localStep, hp] using hhome
+        · cases hk' : c.kind <;> simp_all [localStep, PcOk]
+      · refine ⟨⟨done ++ [c], ?_, ?_⟩, ?_, ?_⟩
         · simpa [localStep, hp] using hd
-        · simp [localStep, hp, hv, CallSpec.expected]
+        · simp [localStep, hp, hv, expected_violation hk (by simpa using hp)]
+        · intro c' hc'
+          exact hhome c' (by simp [localStep, hp] at hc'; simp [hc'])
         · simp [localStep, hp, PcOk]
   | inBody n ck e =>
     cases ck with
     | false => exact absurd hpc (by simp [PcOk])
     | true =>
-      obtain ⟨he, hcur, c, rest, hcalls, hp⟩ := hpc
-      subst he hcalls hcur
+      obtain ⟨he, c, rest, hcalls, hp, hcur⟩ := hpc
+      subst he hcalls
       cases n with
       | succ n =>
-        exact ⟨hctx, ⟨done, hd, hv⟩, ⟨rfl, rfl, c, rest, rfl, hp⟩⟩
+        exact ⟨⟨done, hd, hv⟩, hhome, ⟨rfl, c, rest, rfl, hp, hcur⟩⟩
       | zero =>
-        refine ⟨by simp [localStep, hctx], ⟨done ++ [c], ?_, ?_⟩, ?_⟩
+        refine ⟨⟨done, ?_, ?_⟩, ?_, ?_⟩
         · simpa [localStep] using hd
-        · simp [localStep, hv, CallSpec.expected, hp]
-        · simp [localStep, PcOk]
+        · simpa [localStep] using hv
+        · simpa [localStep] using hhome
+        · cases hk' : c.kind <;> simp_all [localStep, PcOk]
+  | inPost n e =>
+    obtain ⟨he, c, rest, hcalls, hp, hcur⟩ := hpc
+    subst he hcalls
+    cases n with
+    | succ n =>
+      exact ⟨⟨done, hd, hv⟩, hhome, ⟨rfl, c, rest, rfl, hp, hcur⟩⟩
+    | zero =>
+      refine ⟨⟨done ++ [c], ?_, ?_⟩, ?_, ?_⟩
+      · simpa [localStep] using hd
+      · simp [localStep, hv, expected_post hp]
+      · intro c' hc'
+        exact hhome c' (by simp [localStep] at hc'; simp [hc'])
+      · simp [localStep, PcOk]
+
+/-- what the invariant says about a finished prefix -/
+theorem TInv.verdicts_take {h : List Id} {t : Conc.Task} {cur : List Id} (hI : TInv h t cur) :
+    t.verdicts = (t.program.take t.verdicts.length).map CallSpec.expected ∧
+    t.program = t.program.take t.verdicts.length ++ t.calls := by
+  obtain ⟨done, hd, hv⟩ := hI.prog
+  have hlen : t.verdicts.length = done.length := by simp [hv]
+  have htake : t.program.take t.verdicts.length = done := by
+    rw [hlen, hd]; simp
+  rw [htake]
+  exact ⟨hv, hd⟩
+
+theorem TInv.checked {h : List Id} {t : Conc.Task} {cur : List Id} (hI : TInv h t cur) :
+    ∀ n e, t.pc ≠ .inBody n false e := by
+  intro n e hpc
+  have := hI.pc
+  rw [hpc] at this
+  exact this
 
 /-! ### the world invariant -/
 
-/-- `w` is reachable from the well-formed start `w0` -/
-structure Inv (w0 w : World) : Prop where
-  setsLen : w.sets.length = w0.sets.length
-  tasksLen : w.tasks.length = w0.tasks.length
-  task : ∀ (i : Nat) (t0 t : Conc.Task), w0.tasks[i]? = some t0 → w.tasks[i]? = some t →
-    TInv (getSet w0 t0.ctx) t0 t (getSet w t.ctx)
+/-- every task has its own in-range context and satisfies the per-task invariant for some home value
+with the property `P` -/
+structure Inv (P : List Id → Prop) (w : World) : Prop where
+  distinctCtx : ∀ (i j : Nat) (ti tj : Conc.Task), w.tasks[i]? = some ti → w.tasks[j]? = some tj → i ≠ j → ti.ctx ≠ tj.ctx
+  ctxInRange : ∀ (i : Nat) (ti : Conc.Task), w.tasks[i]? = some ti → ti.ctx < w.sets.length
+  task : ∀ (i : Nat) (t : Conc.Task), w.tasks[i]? = some t → ∃ h, P h ∧ TInv h t (getSet w t.ctx)
+
+theorem Inv.mono {P Q : List Id → Prop} {w : World} (hPQ : ∀ h, P h → Q h) (hI : Inv P w) : Inv Q w :=
+  ⟨hI.distinctCtx, hI.ctxInRange, fun i t ht =>
+    let ⟨h, hP, hT⟩ := hI.task i t ht
+    ⟨h, hPQ h hP, hT⟩⟩
 
 /-- the start conditions (same fields as `WellFormed` in Props/C12) -/
 structure Start (w : World) : Prop where
   distinctCtx : ∀ (i j : Nat) (ti tj : Conc.Task), w.tasks[i]? = some ti → w.tasks[j]? = some tj → i ≠ j → ti.ctx ≠ tj.ctx
   ctxInRange : ∀ (i : Nat) (ti : Conc.Task), w.tasks[i]? = some ti → ti.ctx < w.sets.length
-  startIdle : ∀ (i : Nat) (ti : Conc.Task), w.tasks[i]? = some ti → ti.pc = .idle ∧ ti.verdicts = []
+  startIdle : ∀ (i : Nat) (ti : Conc.Task), w.tasks[i]? = some ti → ti.pc = .idle ∧ ti.verdicts = [] ∧ ti.program = ti.calls
   notInProgress : ∀ (i : Nat) (ti : Conc.Task), w.tasks[i]? = some ti → ∀ c ∈ ti.calls, (getSet w ti.ctx).contains c.f = false
 
-theorem Inv.init {w0 : World} (hw : Start w0) : Inv w0 w0 := by
-  refine ⟨rfl, rfl, ?_⟩
-  intro i t0 t h0 ht
-  have : t0 = t := by rw [h0] at ht; exact Option.some.inj ht
-  subst this
-  obtain ⟨hpc, hv⟩ := hw.startIdle i t0 h0
-  refine ⟨rfl, ⟨[], by simp, by simp [hv]⟩, ?_⟩
+theorem Inv.init {w : World} (hw : Start w) : Inv (fun _ => True) w := by
+  refine ⟨hw.distinctCtx, hw.ctxInRange, ?_⟩
+  intro i t ht
+  obtain ⟨hpc, hv, hprog⟩ := hw.startIdle i t ht
+  refine ⟨getSet w t.ctx, trivial, ⟨[], by simp [hprog], by simp [hv]⟩, hw.notInProgress i t ht, ?_⟩
   rw [hpc]; simp [PcOk]
 
-theorem Inv.microStep {w0 w : World} (hw : Start w0) (h : Inv w0 w) (j : Nat) :
-    Inv w0 (microStep .perContext w j) := by
+theorem Inv.microStep {P : List Id → Prop} {w : World} (h : Inv P w) (j : Nat) :
+    Inv P (microStep .perContext w j) := by
   cases hj : w.tasks[j]? with
   | none =>
     have : Conc.microStep .perContext w j = w := by simp [Conc.microStep, hj]
     rw [this]; exact h
   | some tj =>
     rw [microStep_eq_localStep hj]
-    have hjlt : j < w0.tasks.length := by
-      rw [← h.tasksLen]
-      exact (List.getElem?_eq_some_iff.mp hj).1
-    have h0j : w0.tasks[j]? = some w0.tasks[j] := List.getElem?_eq_getElem hjlt
-    have hTj := h.task j _ tj h0j hj
-    have hrange : tj.ctx < w.sets.length := by
-      rw [hTj.ctx, h.setsLen]; exact hw.ctxInRange j _ h0j
-    refine ⟨by simp [h.setsLen], by simp [h.tasksLen], ?_⟩
-    intro i t0 t h0 ht
-    by_cases hij : i = j
-    · subst hij
-      have h0eq : w0.tasks[i] = t0 := by rw [h0j] at h0; exact Option.some.inj h0
-      subst h0eq
-      rw [tasks_putTask_self (t0 := tj) _ (by simpa using hj)] at ht
-      have hteq := Option.some.inj ht
-      subst hteq
-      have hcur : getSet (putTask (putSet w tj.ctx (localStep tj (getSet w tj.ctx)).2) i
-            (localStep tj (getSet w tj.ctx)).1) (localStep tj (getSet w tj.ctx)).1.ctx
-          = (localStep tj (getSet w tj.ctx)).2 := by
+    have hrange : tj.ctx < w.sets.length := h.ctxInRange j tj hj
+    -- the tasks of the new world
+    have hget : ∀ i t, (putTask (putSet w tj.ctx (localStep tj (getSet w tj.ctx)).2) j
+          (localStep tj (getSet w tj.ctx)).1).tasks[i]? = some t →
+        (i = j ∧ t = (localStep tj (getSet w tj.ctx)).1) ∨ (i ≠ j ∧ w.tasks[i]? = some t) := by
+      intro i t ht
+      by_cases hij : i = j
+      · subst hij
+        rw [tasks_putTask_self (t0 := tj) _ (by simpa using hj)] at ht
+        exact Or.inl ⟨rfl, (Option.some.inj ht).symm⟩
+      · rw [tasks_putTask_ne _ hij, putSet_tasks] at ht
+        exact Or.inr ⟨hij, ht⟩
+    have hctx : ∀ (i : Nat) (t : Conc.Task), (putTask (putSet w tj.ctx (localStep tj (getSet w tj.ctx)).2) j
+          (localStep tj (getSet w tj.ctx)).1).tasks[i]? = some t →
+        ∃ t' : Conc.Task, w.tasks[i]? = some t' ∧ t'.ctx = t.ctx := by
+      intro i t ht
+      rcases hget i t ht with ⟨hi, ht'⟩ | ⟨_, ht'⟩
+      · subst hi ht'
+        exact ⟨tj, hj, (localStep_ctx _ _).symm⟩
+      · exact ⟨t, ht', rfl⟩
+    refine ⟨?_, ?_, ?_⟩
+    · intro i k ti tk hi hk hik
+      obtain ⟨ti', hi', hci⟩ := hctx i ti hi
+      obtain ⟨tk', hk', hck⟩ := hctx k tk hk
+      rw [← hci, ← hck]
+      exact h.distinctCtx i k ti' tk' hi' hk' hik
+    · intro i ti hi
+      obtain ⟨ti', hi', hci⟩ := hctx i ti hi
+      rw [← hci]
+      simpa using h.ctxInRange i ti' hi'
+    · intro i t ht
+      rcases hget i t ht with ⟨hi, ht'⟩ | ⟨hij, ht'⟩
+      · subst hi ht'
+        obtain ⟨hh, hP, hT⟩ := h.task i tj hj
+        refine ⟨hh, hP, ?_⟩
         rw [localStep_ctx, getSet_putTask, getSet_putSet_self _ hrange]
-      rw [hcur]
-      exact localStep_inv (hw.notInProgress i _ h0j) hTj
-    · rw [tasks_putTask_ne _ hij, putSet_tasks] at ht
-      have hTi := h.task i t0 t h0 ht
-      have hne : t.ctx ≠ tj.ctx := by
-        rw [hTi.ctx, hTj.ctx]
-        exact hw.distinctCtx i j _ _ h0 h0j hij
-      rw [getSet_putTask, getSet_putSet_ne _ hne]
-      exact hTi
+        exact localStep_inv hT
+      · obtain ⟨hh, hP, hT⟩ := h.task i t ht'
+        have hne : t.ctx ≠ tj.ctx := h.distinctCtx i j t tj ht' hj hij
+        refine ⟨hh, hP, ?_⟩
+        rw [getSet_putTask, getSet_putSet_ne _ hne]
+        exact hT
 
-theorem Inv.stepFuel {w0 : World} (hw : Start w0) (fuel : Nat) :
-    ∀ {w : World}, Inv w0 w → ∀ j, Inv w0 (stepFuel .perContext fuel w j) := by
+theorem Inv.stepFuel {P : List Id → Prop} (fuel : Nat) :
+    ∀ {w : World}, Inv P w → ∀ j, Inv P (stepFuel .perContext fuel w j) := by
   induction fuel with
   | zero => intro w h j; simpa [Conc.stepFuel] using h
   | succ n ih =>
@@ -262,33 +358,186 @@ theorem Inv.stepFuel {w0 : World} (hw : Start w0) (fuel : Nat) :
       · exact h
       · simp only
         split
-        · exact h.microStep hw j
-        · exact ih (h.microStep hw j) j
+        · exact h.microStep j
+        · exact ih (h.microStep j) j
 
-theorem Inv.step {w0 w : World} (hw : Start w0) (h : Inv w0 w) (j : Nat) :
-    Inv w0 (step .perContext w j) := Inv.stepFuel hw 4 h j
+theorem Inv.step {P : List Id → Prop} {w : World} (h : Inv P w) (j : Nat) :
+    Inv P (step .perContext w j) := Inv.stepFuel 5 h j
 
-theorem Inv.runSchedule {w0 : World} (hw : Start w0) (sched : List Nat) :
-    ∀ {w : World}, Inv w0 w → Inv w0 (runSchedule .perContext w sched) := by
-  induction sched with
-  | nil => intro w h; simpa [Conc.runSchedule] using h
-  | cons j js ih =>
-    intro w h
-    simp only [Conc.runSchedule, List.foldl_cons]
-    exact ih (h.step hw j)
+/-! ### creation of tasks -/
+
+/-- the world after a task has been created in a new context whose value is `s` -/
+def spawned (w : World) (s : List Id) (calls : List CallSpec) : World :=
+  { sets := w.sets ++ [s],
+    tasks := w.tasks ++ [{ ctx := w.sets.length, calls := calls, program := calls }] }
+
+theorem spawn_eq_spawned (w : World) (parent : Option Nat) (calls : List CallSpec) :
+    ∃ s, spawn .perContext w parent calls = spawned w s calls ∧
+      (s = [] ∨ ∃ p tp, parent = some p ∧ w.tasks[p]? = some tp ∧ s = getSet w tp.ctx) := by
+  cases parent with
+  | none => exact ⟨[], rfl, Or.inl rfl⟩
+  | some p =>
+    cases hp : w.tasks[p]? with
+    | none => exact ⟨[], by simp [spawn, spawned, hp], Or.inl rfl⟩
+    | some tp => exact ⟨getSet w tp.ctx, by simp [spawn, spawned, hp], Or.inr ⟨p, tp, rfl, hp, rfl⟩⟩
+
+theorem getSet_spawned_lt {w : World} {s : List Id} {calls : List CallSpec} {c : Nat}
+    (hc : c < w.sets.length) : getSet (spawned w s calls) c = getSet w c := by
+  simp [getSet, spawned, List.getElem?_append_left hc]
+
+theorem getSet_spawned_new (w : World) (s : List Id) (calls : List CallSpec) :
+    getSet (spawned w s calls) w.sets.length = s := by
+  simp [getSet, spawned]
+
+theorem tasks_spawned {w : World} {s : List Id} {calls : List CallSpec} {i : Nat} {t : Conc.Task}
+    (ht : (spawned w s calls).tasks[i]? = some t) :
+    w.tasks[i]? = some t ∨
+      (i = w.tasks.length ∧ t = { ctx := w.sets.length, calls := calls, program := calls }) := by
+  by_cases hi : i < w.tasks.length
+  · left
+    simpa [spawned, List.getElem?_append_left hi] using ht
+  · right
+    have hi' : w.tasks.length ≤ i := Nat.le_of_not_lt hi
+    simp only [spawned, List.getElem?_append_right hi'] at ht
+    by_cases h0 : i - w.tasks.length = 0
+    · rw [h0] at ht
+      simp at ht
+      exact ⟨by omega, ht.symm⟩
+    · obtain ⟨k, hk⟩ := Nat.exists_eq_succ_of_ne_zero h0
+      rw [hk] at ht
+      simp at ht
+
+theorem Inv.spawned {P : List Id → Prop} {w : World} (h : Inv P w) {s : List Id} {calls : List CallSpec}
+    (hP : P s) (hs : ∀ c ∈ calls, s.contains c.f = false) : Inv P (spawned w s calls) := by
+  have hold : ∀ i t, w.tasks[i]? = some t → i < w.tasks.length :=
+    fun i t ht => (List.getElem?_eq_some_iff.mp ht).1
+  refine ⟨?_, ?_, ?_⟩
+  · intro i j ti tj hi hj hij
+    rcases tasks_spawned hi with hi' | ⟨hi1, hi2⟩ <;> rcases tasks_spawned hj with hj' | ⟨hj1, hj2⟩
+    · exact h.distinctCtx i j ti tj hi' hj' hij
+    · have := h.ctxInRange i ti hi'
+      subst hj2
+      exact Nat.ne_of_lt this
+    · have := h.ctxInRange j tj hj'
+      subst hi2
+      exact (Nat.ne_of_lt this).symm
+    · exact absurd (hi1.trans hj1.symm) hij
+  · intro i ti hi
+    rcases tasks_spawned hi with hi' | ⟨_, hi2⟩
+    · have := h.ctxInRange i ti hi'
+      simp [Conc.spawned]; omega
+    · subst hi2
+      simp [Conc.spawned]
+  · intro i t ht
+    rcases tasks_spawned ht with ht' | ⟨_, ht2⟩
+    · obtain ⟨hh, hPh, hT⟩ := h.task i t ht'
+      refine ⟨hh, hPh, ?_⟩
+      rw [getSet_spawned_lt (h.ctxInRange i t ht')]
+      exact hT
+    · subst ht2
+      refine ⟨s, hP, ⟨[], by simp, by simp⟩, hs, ?_⟩
+      simp only [getSet_spawned_new]
+      simp [PcOk]
+
+/-- one operation of a schedule -/
+theorem Inv.applyOp {P : List Id → Prop} {w : World} (h : Inv P w) (hP0 : P []) {op : Op}
+    (hsafe : opSafe w op = true)
+    (hP : ∀ p calls tp, op = .fork p calls → w.tasks[p]? = some tp → P (getSet w tp.ctx)) :
+    Inv P (applyOp .perContext w op) := by
+  cases op with
+  | run i => exact h.step i
+  | thread calls =>
+    obtain ⟨s, heq, hs⟩ := spawn_eq_spawned w none calls
+    simp only [Conc.applyOp]
+    rw [heq]
+    rcases hs with hs | ⟨p, tp, hp, _, _⟩
+    · subst hs
+      exact h.spawned hP0 (by simp)
+    · cases hp
+  | fork p calls =>
+    obtain ⟨s, heq, hs⟩ := spawn_eq_spawned w (some p) calls
+    simp only [Conc.applyOp]
+    rw [heq]
+    rcases hs with hs | ⟨p', tp, hp, htp, hs⟩
+    · subst hs
+      exact h.spawned hP0 (by simp)
+    · cases hp
+      subst hs
+      refine h.spawned (hP p calls tp rfl htp) ?_
+      intro c hc
+      simp only [opSafe, htp, List.all_eq_true] at hsafe
+      simpa using hsafe c hc
+
+theorem Inv.runOps (ops : List Op) :
+    ∀ {w : World}, Inv (fun _ => True) w → safeOps .perContext w ops = true →
+      Inv (fun _ => True) (runOps .perContext w ops) := by
+  induction ops with
+  | nil => intro w h _; simpa [Conc.runOps] using h
+  | cons op rest ih =>
+    intro w h hs
+    simp only [safeOps, Bool.and_eq_true] at hs
+    simp only [Conc.runOps, List.foldl_cons]
+    exact ih (h.applyOp trivial hs.1 (fun _ _ _ _ _ => trivial)) hs.2
 
 /-- every reachable task state satisfies the per-task invariant -/
-theorem reachable_task {w0 : World} (hw : Start w0) (sched : List Nat) (i : Nat) (t0 t : Conc.Task)
-    (h0 : w0.tasks[i]? = some t0) (h : (runSchedule .perContext w0 sched).tasks[i]? = some t) :
-    TInv (getSet w0 t0.ctx) t0 t (getSet (runSchedule .perContext w0 sched) t.ctx) :=
-  (Inv.runSchedule hw sched (Inv.init hw)).task i t0 t h0 h
+theorem reachable_task {w0 : World} (hw : Start w0) (ops : List Op)
+    (hs : safeOps .perContext w0 ops = true) (i : Nat) (t : Conc.Task)
+    (h : (runOps .perContext w0 ops).tasks[i]? = some t) :
+    ∃ hh, TInv hh t (getSet (runOps .perContext w0 ops) t.ctx) := by
+  obtain ⟨hh, _, hT⟩ := (Inv.runOps ops (Inv.init hw) hs).task i t h
+  exact ⟨hh, hT⟩
 
-/-- the slot `i` exists in every reachable world iff it exists at the start -/
-theorem reachable_task_orig {w0 : World} (hw : Start w0) (sched : List Nat) (i : Nat) (t : Conc.Task)
-    (h : (runSchedule .perContext w0 sched).tasks[i]? = some t) : ∃ t0, w0.tasks[i]? = some t0 := by
-  have hlen := (Inv.runSchedule hw sched (Inv.init hw)).tasksLen
-  have : i < w0.tasks.length := by
-    rw [← hlen]; exact (List.getElem?_eq_some_iff.mp h).1
-  exact ⟨_, List.getElem?_eq_getElem this⟩
+/-! ### the start of a process; copies made outside checks -/
+
+theorem start_tasks {ps : List (List CallSpec)} {i : Nat} {t : Conc.Task}
+    (h : (World.start ps).tasks[i]? = some t) :
+    ∃ p, ps[i]? = some p ∧ t = { ctx := i, calls := p, program := p } := by
+  simp only [World.start, List.getElem?_map, List.getElem?_zipIdx] at h
+  cases hp : ps[i]? with
+  | none => simp [hp] at h
+  | some p =>
+    simp [hp] at h
+    exact ⟨p, rfl, h.symm⟩
+
+theorem start_getSet (ps : List (List CallSpec)) (c : Nat) : getSet (World.start ps) c = [] := by
+  simp only [getSet, World.start, List.getElem?_map]
+  cases ps[c]? <;> rfl
+
+theorem start_Start (ps : List (List CallSpec)) : Start (World.start ps) := by
+  refine ⟨?_, ?_, ?_, ?_⟩
+  · intro i j ti tj hi hj hij
+    obtain ⟨_, _, rfl⟩ := start_tasks hi
+    obtain ⟨_, _, rfl⟩ := start_tasks hj
+    exact hij
+  · intro i ti hi
+    obtain ⟨p, hp, rfl⟩ := start_tasks hi
+    have := (List.getElem?_eq_some_iff.mp hp).1
+    simpa [World.start] using this
+  · intro i ti hi
+    obtain ⟨_, _, rfl⟩ := start_tasks hi
+    exact ⟨rfl, rfl, rfl⟩
+  · intro i ti _ c _
+    rw [start_getSet]; rfl
+
+theorem Inv.start (ps : List (List CallSpec)) : Inv (fun h => h = []) (World.start ps) := by
+  have hw := start_Start ps
+  refine ⟨hw.distinctCtx, hw.ctxInRange, ?_⟩
+  intro i t ht
+  obtain ⟨hpc, hv, hprog⟩ := hw.startIdle i t ht
+  refine ⟨[], rfl, ⟨[], by simp [hprog], by simp [hv]⟩, by simp, ?_⟩
+  rw [hpc, start_getSet]; simp [PcOk]
+
+/-- between two calls, or in the body of a function, the value bound is the home value -/
+theorem TInv.outside_home {h : List Id} {t : Conc.Task} {cur : List Id} (hI : TInv h t cur)
+    (ho : t.pc = .idle ∨ ∃ n e c rest, t.pc = .inBody n true e ∧ t.calls = c :: rest ∧ c.kind = .function) :
+    cur = h := by
+  have hpc := hI.pc
+  rcases ho with ho | ⟨n, e, c, rest, ho, hc, hk⟩
+  · rw [ho] at hpc; exact hpc
+  · rw [ho] at hpc
+    obtain ⟨_, c', rest', hc', _, hcur⟩ := hpc
+    rw [hc] at hc'
+    obtain ⟨rfl, _⟩ := List.cons.inj hc'
+    simpa [hk] using hcur
 
 end Icontract.Conc
